@@ -61,6 +61,29 @@ func topFrame(stack string) string {
 	return "?"
 }
 
+// exitFrame names the function that ended the (virtual) process through
+// debugFatalf -> os.Exit: the first telemetry frame below debugFatalf.
+func exitFrame(stack string) string {
+	if i := strings.Index(stack, "debugFatalf("); i >= 0 {
+		rest := stack[i:]
+		if j := strings.Index(rest, "\n"); j >= 0 {
+			rest = rest[j+1:]
+			if k := strings.Index(rest, "\n"); k >= 0 {
+				return topFrame(rest[k+1:])
+			}
+		}
+	}
+	return topFrame(stack)
+}
+
+// trapExit makes a "counter bug" exit (debugFatalf with CrashOnBugs, as the go
+// command's tests and GODEBUG=countertrace=1 run it) end only the calling
+// virtual process, with a panic the judges recognise.
+func trapExit() {
+	CrashOnBugs = true
+	verifrt.ExitHook = func(code int) { panic(verifrt.ExitPanic{Code: code}) }
+}
+
 func stackMeta(i int) string {
 	return fmt.Sprintf("TimeBegin: 2024-01-0%dT00:00:00Z\nTimeEnd: 2024-01-0%dT00:00:00Z\nProgram: example.com/p%d\nVersion: v1.%d.0\nGoVersion: go1.22.%d\nGOOS: linux\nGOARCH: amd64\n\n", 1+i%7, 2+i%7, i, i, i)
 }
